@@ -85,12 +85,17 @@ theorem encodeUsb_inv (L : EncLayer) (seq seq' : Nat) (m : MsgIn) (pk : List Byt
 
 theorem encodeActisense_inv (L : EncLayer) (m : MsgIn) (line : List Char)
     (he : encodeActisense L m = .ok line) :
+    (m.prio ≤ 7 ∧ m.src ≤ 255 ∧ m.pgn ≤ 0x3FFFF ∧ m.dst ≤ 255) ∧
     ∃ B, callEncode L m = .ok B ∧ line = Wire.encodeActisense m.prio m.dst m.src m.pgn B := by
   unfold encodeActisense at he
-  cases hB : callEncode L m with
-  | raised => rw [hB] at he; cases he
-  | unmodelled => rw [hB] at he; cases he
-  | ok B => rw [hB] at he; cases he; exact ⟨B, rfl, rfl⟩
+  split at he
+  · cases he
+  · rename_i hg
+    refine ⟨by omega, ?_⟩
+    cases hB : callEncode L m with
+    | raised => rw [hB] at he; cases he
+    | unmodelled => rw [hB] at he; cases he
+    | ok B => rw [hB] at he; cases he; exact ⟨B, rfl, rfl⟩
 
 /-! ### payload bytes are bytes -/
 
